@@ -249,6 +249,281 @@ def validate(c, traces, meta, kind):
     c.sample({'kind': kind, 'meta': meta[0], 'trace': traces[0]})
 
 
+AMBIENT_HOST = '''import warnings
+
+LIMIT = 3
+FINALIZED = [0]
+
+
+class Res:
+    """A resource released by reference counting when the function that holds it returns."""
+
+    def __del__(self):
+        FINALIZED[0] += 1
+
+
+def old_api():
+    warnings.warn('old_api is deprecated', DeprecationWarning, stacklevel=2)
+    return 1
+
+
+def work(n):
+    total = 0
+    items = [n, n + 1]
+    res = Res()
+    for i in range(3):
+        total += old_api()  # TP:warned
+    label = 'n=%d' % n
+    return total + n  # TP:work
+'''
+
+FACETS = ['prng', 'warnings', 'recursion', 'decimal', 'environ', 'syspath', 'cwd', 'logging', 'gc', 'hooks',
+          'switchinterval', 'finalizers']
+FEATURE_ARGS = {
+    'snapshot': {},
+    'watch': {},
+    'log': {'log_msg': 'n is {n} and {items[0]}'},
+    'condition': {'condition': 'n >= LIMIT - 10'},
+    'metric': {},
+    'span': {'span': 'line'},
+    'capture': {'stage': 'line_capture'},
+}
+
+
+def _fingerprint(mod):
+    import decimal
+    import gc
+    import logging as pylog
+    import os
+    import random as pyrandom
+    import sys
+    import threading
+    import warnings
+    ctx = decimal.getcontext()
+    root = pylog.getLogger()
+    return {
+        'prng': hash(pyrandom.getstate()),
+        'warnings': (repr(warnings.filters), getattr(warnings, '_filters_version', 0)),
+        'recursion': sys.getrecursionlimit(),
+        'decimal': (ctx.prec, ctx.rounding, repr(ctx.flags), repr(ctx.traps)),
+        'environ': hash(tuple(sorted(os.environ.items()))),
+        'syspath': tuple(sys.path),
+        'cwd': os.getcwd(),
+        'logging': (root.level, tuple(id(h) for h in root.handlers), pylog.root.manager.disable),
+        'gc': (gc.isenabled(), gc.get_threshold()),
+        'hooks': (id(sys.excepthook), id(threading.excepthook), id(sys.unraisablehook), id(sys.displayhook)),
+        'switchinterval': sys.getswitchinterval(),
+        'finalizers': 0,       # measured per step: objects whose last reference went away but which were not finalized
+    }
+
+
+_KEPT_HOOKS = []
+
+
+def _host_change(facet, k):
+    """The application changes one facet itself (and the harness checks that its fingerprint notices)."""
+    import decimal
+    import gc
+    import logging as pylog
+    import os
+    import random as pyrandom
+    import sys
+    import warnings
+    if facet == 'prng':
+        pyrandom.random()
+    elif facet == 'warnings':
+        warnings.simplefilter('default', type('HostWarning%d' % k, (Warning,), {}))     # a new filter every time
+    elif facet == 'recursion':
+        sys.setrecursionlimit(sys.getrecursionlimit() + 1)
+    elif facet == 'decimal':
+        decimal.getcontext().prec += 1
+    elif facet == 'environ':
+        os.environ['VERIF_AMBIENT_%d' % k] = '1'
+    elif facet == 'syspath':
+        sys.path.append('/nonexistent-%d' % k)
+    elif facet == 'cwd':
+        os.chdir('/tmp' if os.getcwd() != '/tmp' else '/')
+    elif facet == 'logging':
+        pylog.getLogger().setLevel(pylog.getLogger().level + 1)
+    elif facet == 'gc':
+        a, b, c_ = gc.get_threshold()
+        gc.set_threshold(a + 1, b, c_)
+    elif facet == 'hooks':
+        _KEPT_HOOKS.append(lambda *a: None)          # kept alive: a new object (a new id) every time
+        sys.excepthook = _KEPT_HOOKS[-1]
+    elif facet == 'switchinterval':
+        sys.setswitchinterval(sys.getswitchinterval() * 1.01)
+    elif facet == 'finalizers':
+        pass        # (the host-side change is made by the caller: it parks an object in a reference cycle)
+
+
+def ambient_leg(c, rng, wd, nruns):
+    """Hits handled by the real agent (every combination of tracepoint features) interleaved with the program changing
+    the interpreter-wide state itself; what changed across every step is recorded and validated by Trace_Ambient."""
+    import copy
+    import decimal
+    import gc
+    import logging as pylog
+    import os
+    import random as pyrandom
+    import sys
+    import threading
+    import warnings
+    from deepproto.proto.tracepoint.v1.tracepoint_pb2 import Metric, MetricType
+    from .. import rig as R
+    traces, meta = [], []
+    features = sorted(FEATURE_ARGS)
+    for run_i in range(nruns):
+        saved = dict(prng=pyrandom.getstate(), filters=list(warnings.filters), rec=sys.getrecursionlimit(),
+                     dec=decimal.getcontext().copy(), env=dict(os.environ), path=list(sys.path), cwd=os.getcwd(),
+                     level=pylog.getLogger().level, gc=gc.get_threshold(), hook=sys.excepthook,
+                     sw=sys.getswitchinterval())
+        mod, path, marks = R.write_host(wd, AMBIENT_HOST)
+        base = path.rsplit('/', 1)[-1]
+        plugin = R.role_plugin('amb', {'log', 'metric', 'span', 'decorate'})
+        rg = R.Rig(plugins=[plugin])
+        tr = [{'facets': FACETS}]
+        try:
+            warnings.simplefilter('default', DeprecationWarning)      # once per location, as an application would see it
+            pyrandom.seed(1234 + run_i)
+            shown = []
+            old_show = warnings.showwarning
+            warnings.showwarning = lambda *a, **k: shown.append(str(a[0]))
+            nsteps = 8 if run_i else 2 * len(features) + len(FACETS)
+            plan = []
+            if run_i == 0:
+                # systematic: every single feature, then all together, with every facet changed by the host once
+                for f in features:
+                    plan.append(('agent', [f]))
+                plan.append(('agent', list(features)))
+                for fc in FACETS:
+                    plan.append(('host', fc))
+                    plan.append(('agent', rng.sample(features, 3)))
+            else:
+                for _ in range(nsteps):
+                    if rng.random() < 0.3:
+                        plan.append(('host', rng.choice(FACETS)))
+                    else:
+                        plan.append(('agent', sorted(rng.sample(features, rng.randint(1, len(features))))))
+            k = 0
+            runs_of_work = 0
+            parked = []
+            gc.disable()            # the cyclic collector runs when the harness says so (deterministic measurement)
+            expect_show = True      # the once-per-location registry is empty: the loop's warning will be shown once
+            for kind, what in plan:
+                k += 1
+                before = _fingerprint(mod)
+                nshown = len(shown)
+                pending_before = runs_of_work - mod.FINALIZED[0] + len(parked)
+                if kind == 'host':
+                    _host_change(what, k)
+                    if what == 'finalizers':
+                        cyc = [mod.Res()]
+                        cyc.append(cyc)          # the application itself leaves an object to the cyclic collector
+                        parked.append(1)
+                        del cyc
+                    rec = {'ev': 'host', 'facet': what}
+                    if what == 'warnings':
+                        expect_show = True          # changing the filters resets the registries
+                else:
+                    args = {'fire_count': '-1', 'fire_period': '0'}
+                    for f in what:
+                        args.update(FEATURE_ARGS[f])
+                    if 'snapshot' not in what and 'capture' not in what:
+                        args['snapshot'] = 'no_collect'
+                    tp = {'id': 'amb-%d' % k, 'path': base, 'line': marks['work'], 'args': args,
+                          'watches': ['n * 2', 'label.upper()'] if 'watch' in what else [],
+                          'metrics': [Metric(name='m', type=MetricType.COUNTER, expression='n')] if 'metric' in what else []}
+                    second = {'id': 'amb-w-%d' % k, 'path': base, 'line': marks['warned'],
+                              'args': {'fire_count': '-1', 'fire_period': '0', 'snapshot': 'no_collect',
+                                       'log_msg': 'loop {i}', 'condition': 'i >= 0'}}
+                    rg.install([tp, second])
+                    res = rg.run(mod.work, 5, only_file=path)
+                    runs_of_work += 1
+                    if res != ('ok', 8) or rg.escaped:
+                        raise tlc.MachineryError('ambient host run: %r %r' % (res, rg.escaped))
+                    rec = {'ev': 'agent', 'features': list(what)}
+                after = _fingerprint(mod)
+                rec['changed'] = [f for f in FACETS if before[f] != after[f]]
+                # `work` holds a Res in a local: without the agent it is finalized the moment `work` returns
+                pending_after = runs_of_work - mod.FINALIZED[0] + len(parked)
+                if pending_after != pending_before:
+                    rec['changed'].append('finalizers')
+                if kind == 'agent':
+                    # the program's own DeprecationWarning (3 times at one location per run of `work`) is shown once per
+                    # location until the application touches the filters again - with or without the agent
+                    want = 1 if expect_show else 0
+                    expect_show = False
+                    if len(shown) - nshown != want and 'warnings' not in rec['changed']:
+                        rec['changed'].append('warnings')
+                        rec['warnings_shown'] = [len(shown) - nshown, want]
+                tr.append(rec)
+            tr_meta = {'plan': plan, 'warnings_shown': len(shown)}
+        finally:
+            gc.enable()
+            gc.collect()
+            warnings.showwarning = old_show
+            rg.close()
+            pyrandom.setstate(saved['prng'])
+            warnings.filters[:] = saved['filters']
+            if hasattr(warnings, '_filters_mutated'):
+                warnings._filters_mutated()
+            sys.setrecursionlimit(saved['rec'])
+            decimal.setcontext(saved['dec'])
+            for key in list(os.environ):
+                if key not in saved['env']:
+                    del os.environ[key]
+            sys.path[:] = saved['path']
+            os.chdir(saved['cwd'])
+            pylog.getLogger().setLevel(saved['level'])
+            gc.set_threshold(*saved['gc'])
+            sys.excepthook = saved['hook']
+            sys.setswitchinterval(saved['sw'])
+            sys.modules.pop(mod.__name__, None)
+        traces.append(tr)
+        meta.append(tr_meta)
+    consts = dict(Facets=set(FACETS), Features=set(features), MaxSteps=100000, DrawsFromGlobalPRNG=False)
+    accepted, progress, r = tlc.validate_traces('Trace_Ambient', traces, constants=consts,
+                                                invariants=['TraceInvariant'])
+    c.states += r.distinct
+    c.transitions += r.generated
+    retry = []
+    for i, tr in enumerate(traces):
+        c.traces_validated += 1
+        c.note_case(key=('ambient', str(meta[i]['plan'])), nontrivial=True)
+        if i not in accepted:
+            at = progress.get(i, 2)
+            ev = tr[at - 1] if at - 1 < len(tr) else None
+            path_ = c.save_replay({'direction': 'C2S', 'module': 'Trace_Ambient', 'trace': tr, 'meta': meta[i],
+                                   'rejected_at': at})
+            if ev is not None and ev.get('ev') == 'host':
+                raise tlc.MachineryError('ambient fingerprint is blind or unstable at host step %r' % (ev,))
+            c.violation('ambient state: a hit handled by the agent (features %s) changed %s of the process%s'
+                        % (ev.get('features') if ev else '?', ev.get('changed') if ev else '?',
+                           ' - ' + meta[i]['note'] if meta[i].get('note') else ''), path_,
+                        signature={'ambient': sorted(ev.get('changed', [])) if ev else []})
+            # the rest of this run is judged as well: cut the rejected event out and validate again
+            rest = [tr[0]] + [e for j, e in enumerate(tr[1:], 2) if j != at and not
+                              (e.get('ev') == 'agent' and sorted(e.get('changed', [])) == sorted(ev.get('changed', [])))]
+            retry.append((rest, meta[i]))
+    if retry:
+        # events of the kind already reported were removed: anything else the agent changed is still found
+        traces2 = [t for t, _ in retry]
+        accepted2, progress2, r2 = tlc.validate_traces('Trace_Ambient', traces2, constants=consts,
+                                                      invariants=['TraceInvariant'])
+        for i, tr in enumerate(traces2):
+            if i not in accepted2:
+                at = progress2.get(i, 2)
+                ev = tr[at - 1] if at - 1 < len(tr) else {}
+                if ev.get('ev') == 'host':
+                    raise tlc.MachineryError('ambient fingerprint is blind or unstable at host step %r' % (ev,))
+                path_ = c.save_replay({'direction': 'C2S', 'module': 'Trace_Ambient', 'trace': tr, 'rejected_at': at})
+                c.violation('ambient state: a hit handled by the agent (features %s) changed %s of the process'
+                            % (ev.get('features'), ev.get('changed')), path_,
+                            signature={'ambient': sorted(ev.get('changed', []))})
+    c.sample({'kind': 'ambient', 'trace': traces[0][:6]})
+
+
 def run(c):
     quick = c.tier == 'quick'
     rng = random.Random(c.seed)
@@ -274,6 +549,14 @@ def run(c):
     lock_probe_leg(c, wd)
     traces, meta = c03.run_scenarios(c, rng, wd, 40 if quick else 6000, 0.5, 'differential', 'd')
     c03.validate(c, traces, meta, lambda m: m['firings'] >= 3)
+    # the interpreter-wide state the application can observe is left alone by hits
+    amb = dict(constants=dict(Facets={'prng', 'warnings', 'recursion'}, Features={'snapshot', 'log', 'condition'},
+                              MaxSteps=4, DrawsFromGlobalPRNG=False), invariants=['AgentLeavesAmbientStateAlone'],
+               deadlock=False)
+    c.mc('Ambient', amb, label='3 facets, 3 features, 4 steps', must_cover=['HostStep', 'AgentStep'])
+    c.mc_expect_violation('Ambient', dict(amb, constants=dict(amb['constants'], DrawsFromGlobalPRNG=True)),
+                          'deviation DrawsFromGlobalPRNG', what='AgentLeavesAmbientStateAlone')
+    ambient_leg(c, rng, wd, 4 if quick else 60)
 
 
 if __name__ == '__main__':
